@@ -451,6 +451,66 @@ def flex_numerator(F, R, Ns):
         R.ob('K2-coef', '%s:numerator' % n, not bad and cnt > 0,
              'the normalised quantity is the %smean deviation over the N filter values including the current one (%d window lengths)' % ('slope-corrected ' if with_slope else '', cnt)
              if not bad and cnt > 0 else (bad[0] if bad else 'nothing analysed'), v.file)
+        # ... and from the initial state, through the warm-up (the window holds the k ≤ N filter values seen so far)
+        from .lti import transient
+        bad2 = []
+        bad3 = []
+        cnt2 = 0
+        from .lti import _rename_u
+        for N in [N for N in Ns if 1 <= N <= 12]:
+            hist = []       # reference smoother outputs f_0.. as linear forms over u0.. (first-value initial state: u_(−1) = u_0)
+            mm = [x for x in m.ctor_models if x['fn'].name == 'new' and x['init'] is not None]
+            if not mm:
+                continue
+            ints = [nm for (pid, nm, ty) in mm[0]['fn'].param_ids() if ty == 'usize']
+
+            def probe(k, ev, ex, N=N):
+                nonlocal cnt2
+                try:
+                    got = ev.ev(X)
+                    newq = ev.ev(ex.fields.get(q, ('in', q)))
+                except NonConst:
+                    bad2.append('N=%d step %d: the normalised quantity is not a linear form of the inputs' % (N, k))
+                    return
+                if not isinstance(got, Form) or not isinstance(newq, list) or not newq or not all(isinstance(x_, Form) for x_ in newq):
+                    bad2.append('N=%d step %d: the normalised quantity is not a linear form of the inputs' % (N, k))
+                    return
+                cnt2 += 1
+                n_ = len(newq)
+                f = newq[-1]
+                if N >= 3:
+                    c1, b1, c3 = ss_coeffs(N, 8.88442402435, 4.44221201218)
+                    x0 = Form({'u%d' % k: 1.0})
+                    x1 = Form({'u%d' % max(k - 1, 0): 1.0})
+                    wf = x0.plus(x1).scale(c1 / 2.0)
+                    if len(hist) >= 1:
+                        wf = wf.plus(hist[-1].scale(b1))
+                    if len(hist) >= 2:
+                        wf = wf.plus(hist[-2].scale(c3))
+                    hist.append(wf)
+                    gf = _rename_u(f, 'u%d' % k)
+                    keys_ = set(gf) | set(wf)
+                    if any(abs(gf.get(k_, 0.0) - wf.get(k_, 0.0)) > 1e-8 for k_ in keys_):
+                        k_ = max(keys_, key=lambda k__: abs(gf.get(k__, 0.0) - wf.get(k__, 0.0)))
+                        bad3.append('N=%d, update %d: weight of %s in the smoothed value is %.9g, the stated recursion from a first-value initial state gives %.9g'
+                                    % (N, k + 1, k_, gf.get(k_, 0.0), wf.get(k_, 0.0)))
+                slope = newq[0].plus(f, -1.0).scale(1.0 / N) if with_slope else Form()
+                want = Form()
+                for i in range(n_):
+                    want = want.plus(f.plus(slope.scale(float(i))).plus(newq[n_ - 1 - i], -1.0))
+                want = want.scale(1.0 / N)
+                keys = set(got) | set(want)
+                if any(abs(got.get(k_, 0.0) - want.get(k_, 0.0)) > 1e-9 for k_ in keys):
+                    k_ = max(keys, key=lambda k__: abs(got.get(k__, 0.0) - want.get(k__, 0.0)))
+                    bad2.append('N=%d, update %d (window holds %d filter values): weight of %s in the normalised quantity is %.6g, the mean deviation over the window gives %.6g'
+                                % (N, k + 1, n_, k_, got.get(k_, 0.0), want.get(k_, 0.0)))
+            transient(m, 'new', {ints[0]: N}, 2 * N + 4, probe=probe)
+        R.ob('K2-coef', '%s:smoother-from-start' % n, not bad3 and cnt2 > 0,
+             'from the initial state the smoothed value follows f = c1(x + x₋₁)/2 + b1·f₋₁ + c3·f₋₂ with x₋₁ := x₀ and zero filter history (N = 3..12)'
+             if not bad3 and cnt2 > 0 else (bad3[0] if bad3 else 'nothing analysed'), v.file)
+        R.ob('K2-coef', '%s:numerator-warmup' % n, not bad2 and cnt2 > 0,
+             'from the initial state the normalised quantity is (1/N)·Σ over the filter values in the window (%d steps examined)' % cnt2
+             if not bad2 and cnt2 > 0 else (bad2[0] if bad2 else 'nothing analysed'), v.file)
 
 
 def fisher_feedback(F, R):
